@@ -301,7 +301,7 @@ func checkURIAgainstRedirects(client Client, uri string) error {
 		for _, uriGlob := range globClient.RedirectURIGlobs() {
 			isMatch, err := doublestar.Match(uriGlob, uri)
 			if err != nil {
-				return oidc.ErrServerError().WithParent(err)
+				return oidc.ErrInvalidRequestRedirectURI().WithParent(err)
 			}
 			if isMatch {
 				return nil
